@@ -4,44 +4,52 @@ import (
 	"fmt"
 	"os"
 	"path/filepath"
-	"strconv"
 
 	"verif/harness/sut"
 )
 
 func main() {
-	dir, _ := os.MkdirTemp("", "dbg")
-	defer os.RemoveAll(dir)
 	ks := sut.NewKeySet("/verif/.cache/keys")
-	cfg := sut.Config{RecordSize: 2, Signature: "minisign"}
-	inst, err := sut.Open(dir, "", cfg, ks, nil)
-	if err != nil {
-		panic(err)
-	}
-	fs := inst.FS
-	fmt.Println(fs.Mkdir("/d", 0o755))
-	f, _ := fs.Create("/d/f")
-	buf := make([]byte, 1581); for i := range buf { buf[i] = byte(i*7 + 1) }; f.Write(buf)
-	fmt.Println(f.Close())
-	fmt.Println(fs.Mkdir("/e", 0o755))
-	fmt.Println(fs.Chmod("/d/f", 0o600))
-	inst.Close()
-	sc, _ := sut.Scan(inst.Drive, cfg, ks, false)
-	for _, r := range sc.Recs {
-		fmt.Printf("scan off=%d hb=%d db=%d %q %s\n", r.Off, r.HB, r.DB, r.Name, r.Action)
-	}
-	off, _ := strconv.Atoi(os.Args[1])
-	data, _ := os.ReadFile(inst.Drive)
-	data[off] ^= 0x20
-	os.WriteFile(inst.Drive, data, 0o644)
-	rb, ierr, err := sut.Rebuilt(inst.Drive, filepath.Join(dir, "rb"), cfg, ks)
-	fmt.Println("rebuild:", ierr, err)
-	if rb != nil {
-		rows, _ := sut.Rows(rb.DB)
-		for _, r := range rows {
-			fmt.Printf("rebld %-6q del=%v size=%d rec=%d blk=%d lk=%d/%d\n", r.Name, r.Deleted, r.Size, r.Record, r.Block, r.LKRecord, r.LKBlock)
+	for _, comp := range []string{"", "gzip", "parallelgzip", "lz4", "zstandard", "brotli", "bzip2", "parallelbzip2"} {
+		for _, enc := range []string{"", "age"} {
+			dir, _ := os.MkdirTemp("", "dbg")
+			cfg := sut.Config{RecordSize: 20, Compression: comp, Encryption: enc}
+			inst, err := sut.Open(dir, "", cfg, ks, nil)
+			if err != nil {
+				panic(err)
+			}
+			fs := inst.FS
+			f, _ := fs.Create("/f")
+			buf := make([]byte, 1581)
+			for i := range buf {
+				buf[i] = byte(i*7 + 1)
+			}
+			f.Write(buf)
+			f.Close()
+			inst.Close()
+			sc, _ := sut.Scan(inst.Drive, cfg, ks, false)
+			last := sc.Recs[len(sc.Recs)-1]
+			for _, extra := range []int64{0, 1, 100} {
+				cut := (last.Off+last.HB)*512 + extra
+				data, _ := os.ReadFile(inst.Drive)
+				d2 := filepath.Join(dir, fmt.Sprintf("cut%d", extra))
+				os.MkdirAll(d2, 0o755)
+				os.WriteFile(filepath.Join(d2, "drive.tar"), data[:cut], 0o644)
+				rb, ierr, err := sut.Rebuilt(filepath.Join(d2, "drive.tar"), filepath.Join(d2, "rb"), cfg, ks)
+				if err != nil || rb == nil {
+					fmt.Println(comp, enc, extra, "rebuild failed", ierr, err)
+					continue
+				}
+				b, rerr := sut.ReadAll(rb.FS, "/f")
+				st, _ := rb.FS.Stat("/f")
+				sz := int64(-1)
+				if st != nil {
+					sz = st.Size()
+				}
+				fmt.Printf("%-14s %-4s cut=hdr+%-3d indexerr=%v stat=%d read=%d err=%v\n", comp, enc, extra, ierr, sz, len(b), rerr)
+				rb.Close()
+			}
+			os.RemoveAll(dir)
 		}
-		b, err := sut.ReadAll(rb.FS, "/d/f")
-		fmt.Println("read /d/f:", len(b), err)
 	}
 }
